@@ -42,7 +42,7 @@ import (
 )
 
 type attempt struct {
-	What  string `json:"what"`  // commit | abort | pcabort | done | assert | fall | reserr | pcerr | panic
+	What  string `json:"what"`  // commit | abort | pcabort | done (body returns ErrDone) | assert | fall | reserr | pcerr | panic
 	Touch []int  `json:"touch"` // IncMap keys indexed by this attempt
 }
 
@@ -84,6 +84,8 @@ type result struct {
 	StopBeforeEnd   int            `json:"stop_before_end"` // Stops that returned before cleanup had finished, of a started run
 	Closes          map[string]int `json:"closes"`          // instance -> Close calls
 	Created         map[string]int `json:"created"`         // IncMap key -> instances created by the fill function
+	CreatedOrder    []int          `json:"created_order"`   // IncMap keys in the order the fill function was called
+	LastWhat        string         `json:"last_what"`       // what the last attempt that was let through had been told to do
 	Rerun           []string       `json:"rerun"`           // outcome of each further Run: refused | nil-norun | ran-again | panic:<msg>
 	Err             string         `json:"err"`
 }
@@ -96,6 +98,8 @@ type driver struct {
 	mu         sync.Mutex
 	insts      map[string]*inst
 	created    map[string]int
+	createdOrd []int
+	nestedRead int32
 	enteredCh  chan int      // body of attempt i entered
 	gates      []chan string // per attempt: what to do (sent by the driver)
 	closeEnter chan string   // first blocked Close announces itself
@@ -117,6 +121,7 @@ type inst struct {
 	closeErr   bool
 	gated      bool
 	closeCount int32
+	readOnce   int32
 	commitSeqs []int64
 	mu         sync.Mutex
 }
@@ -154,6 +159,9 @@ func (r *inst) Commit(distsys.ArchetypeInterface) chan struct{} {
 	return nil
 }
 func (r *inst) ReadValue(distsys.ArchetypeInterface) (tla.Value, error) {
+	if !r.gated && atomic.CompareAndSwapInt32(&r.readOnce, 0, 1) {
+		atomic.AddInt32(&r.d.nestedRead, 1)
+	}
 	if r.name == "w" && atomic.LoadInt32(&r.d.failRead) != 0 {
 		return tla.Value{}, errRes
 	}
@@ -229,7 +237,7 @@ func archetype(d *driver, name string, nested bool) distsys.MPCalArchetype {
 				atomic.StoreInt32(&d.pcMode, 2)
 				return iface.Goto(loop)
 			case "done":
-				return iface.Goto(done)
+				return distsys.ErrDone
 			case "assert":
 				return fmt.Errorf("%w: c17 scripted assertion", distsys.ErrAssertionFailed)
 			case "fall":
@@ -347,6 +355,7 @@ func runCase(k kase) (res result) {
 			key := fmt.Sprintf("%d", index.AsNumber())
 			d.mu.Lock()
 			d.created[key]++
+			d.createdOrd = append(d.createdOrd, int(index.AsNumber()))
 			n := d.created[key]
 			d.mu.Unlock()
 			return d.newInst(fmt.Sprintf("im[%s]#%d", key, n), false, true)
@@ -371,14 +380,33 @@ func runCase(k kase) (res result) {
 		}))
 	}
 	ctx := distsys.NewMPCalContext(tla.MakeNumber(1), archetype(d, A, false), cfg...)
+	// nested contexts are started by NewNested; wait until each has begun its first attempt, so that the
+	// later Close finds running contexts (a context stopped before it starts closes nothing, which is allowed)
+	if k.Nested > 0 {
+		t0 := time.Now()
+		for atomic.LoadInt32(&d.nestedRead) < int32(k.Nested) {
+			if time.Since(t0) > deadline {
+				res.Hang = "nested-start"
+				return
+			}
+			time.Sleep(100 * time.Microsecond)
+		}
+	}
 
 	var stopSeqs []int64
 	var stopMu sync.Mutex
 	stopDone := make(chan struct{}, 64)
 	issueStops := func(n int) {
+		ready := make(chan struct{}, n)
+		defer func() {
+			for i := 0; i < n; i++ {
+				<-ready
+			}
+		}()
 		for i := 0; i < n; i++ {
 			res.StopsIssued++
 			go func() {
+				ready <- struct{}{}
 				ctx.Stop()
 				s := d.next()
 				stopMu.Lock()
@@ -410,6 +438,7 @@ func runCase(k kase) (res result) {
 		for key, n := range d.created {
 			res.Created[key] = n
 		}
+		res.CreatedOrder = append([]int{}, d.createdOrd...)
 		w := d.insts["w"]
 		w.mu.Lock()
 		commitSeqs := append([]int64(nil), w.commitSeqs...)
@@ -490,6 +519,8 @@ loop:
 			if n := bodyStopsAt[i]; n > 0 {
 				issueStops(n)
 				time.Sleep(settle)
+			} else if i == 0 && k.Race > 0 {
+				time.Sleep(settle) // the Stops released together with Run have had time to take effect
 			}
 			if k.RerunAt == i {
 				r2 := make(chan runRet, 1)
@@ -506,6 +537,7 @@ loop:
 			if i < len(k.Plan) {
 				what = k.Plan[i].What
 			}
+			res.LastWhat = what
 			d.gates[i] <- what
 		case <-d.closeEnter:
 			if cleanupSeen {
